@@ -19,7 +19,13 @@ def generate(rng, tier):
     cases = []
     for _ in range(n):
         T, rate, accel, jerk, fam = ebbgen.gen_t3(rng)
-        cases.append({"T": T, "rate": rate, "accel": accel, "jerk": jerk, "family": fam})
+        c = {"T": T, "rate": rate, "accel": accel, "jerk": jerk, "family": fam}
+        r = rng.random()
+        if r < 0.15:       # the same ramp was evaluated a moment ago with another duration or start rate (a planner shortening a move); keyword arguments or not
+            c["pre"] = [rng.choice([(2 * T, rate), (T + 7, rate), (max(1, T // 2), rate), (T, rate + 1), (10 * T + 3, -rate)]) for _ in range(rng.choice([1, 1, 2]))]
+            c["kw"] = rng.choice([0, 0, 2]); c["family"] += "/after-sibling-call"
+        elif r < 0.25: c["kw"] = 2; c["family"] += "/keyword-arguments"
+        cases.append(c)
     # moves that leave the 2^31-1 range (the reason the helper exists: its report is compared with the limit): the rate passes the
     # limit at the first tick, at the last tick, or at an interior extremum; magnitudes kept below 2^36 so that the float
     # arithmetic of rate_t3 stays exact
@@ -45,7 +51,11 @@ def generate(rng, tier):
     return cases
 
 def run_impl(c):
-    return {"max": int(ebb_calc.max_rate_t3(c["T"], c["rate"], c["accel"], c["jerk"]))}
+    kw = c.get("kw", 0)
+    for (t0, r0) in c.get("pre", []):
+        try: ebbgen.call(ebb_calc.max_rate_t3, (t0, r0, c["accel"], c["jerk"]), kw)
+        except Exception: pass           # the earlier call may lie outside the domain; only its side effects matter here
+    return {"max": int(ebbgen.call(ebb_calc.max_rate_t3, (c["T"], c["rate"], c["accel"], c["jerk"]), kw))}
 
 def coq_case(c, r):
     v = r["max"] if "raise" not in r else -1
